@@ -7,6 +7,7 @@ from ..ref_ws import SFrame, TEXT
 
 KEYS = [bytes(16), b'\xff' * 16, bytes(range(16)), bytes.fromhex('5c1f0b8e99a04d7e2b6f30c4d8e1a2b3'),
         bytes.fromhex('00ff00ff00ff00ff00ff00ff00ff00ff'), bytes.fromhex('deadbeefcafebabe0123456789abcdef')]
+ALL_CUTS = False      # thorough tier: every single cut of every reply
 LEAK = SFrame(TEXT, b'leak').encode()
 BIG = SFrame(2, bytes(20000)).encode()
 URLS = [
@@ -107,6 +108,10 @@ def deliveries(block, rest, fam):
         yield 'one+big', [block[:-2], block[-2:] + BIG + rest]
     if fam in ('perm', 'fold', 'accept', 'negotiated') and len(block) < 600:
         yield 'bytes', [bytes([b]) for b in block + rest]
+    if ALL_CUTS and len(block) < 700:
+        stream = block + rest
+        for cut in range(1, len(stream)):
+            yield 'cut%d' % cut, [stream[:cut], stream[cut:]]
     if fam == 'size':
         n = len(block)
         for cut in (16000, 16383, 16384, 16385, n - 4, n - 1):
@@ -141,9 +146,9 @@ class C10(F.Check):
         jobs = []
         for fam, specs in sorted(spec_families().items()):
             for ki in range(nkeys):
-                step = 6 if fam != 'size' else 2
+                step = 1 if tier == 'thorough' else (6 if fam != 'size' else 2)
                 for i in range(0, len(specs), step):
-                    jobs.append({'k': 'reply', 'fam': fam, 'key': ki, 'range': [i, min(len(specs), i + step)]})
+                    jobs.append({'k': 'reply', 'fam': fam, 'key': ki, 'range': [i, min(len(specs), i + step)], 'all_cuts': tier == 'thorough'})
         for ki in range(nkeys):
             jobs.append({'k': 'cuts', 'key': ki, 'which': 'standard'})
             jobs.append({'k': 'cuts', 'key': ki, 'which': 'folded'})
@@ -231,6 +236,8 @@ class C10(F.Check):
 
     def run_job(self, job):
         res = F.JobResult()
+        global ALL_CUTS
+        ALL_CUTS = bool(job.get('all_cuts'))
         if job['k'] == 'reply':
             specs = spec_families()[job['fam']][job['range'][0]:job['range'][1]]
             for spec in specs:
